@@ -21,3 +21,11 @@ Definition all_same_length (ls : list (list float)) : option nat :=
 
 Definition list_Z_eqb := list_eqb Z.eqb.
 
+
+(* strategy reports: what the date channel and every column channel delivered *)
+From Coq Require Import String.
+Inductive ocol := ONum (label : string) (vals : list float) | OAnn (vals : list string).
+
+Inductive rcase :=
+| CRep (r : report snap float) (acts : expr snap Z) (w : Z) (adm : bool) (bars : list snap)
+       (dates : list Z) (cols : list ocol) (hung : bool).
